@@ -157,8 +157,10 @@ namespace link_layer {
                         bluetoe::details::write_64bit( &write_body[ 1 ], skds );
                         bluetoe::details::write_32bit( &write_body[ 9 ], ivs );
                     }
-                    else if ( opcode == LinkLayer::LL_START_ENC_RSP && size == 1 )
+                    else if ( opcode == LinkLayer::LL_START_ENC_RSP && size == 1 && has_key_ && !encryption_in_progress_ )
                     {
+                        // last step of an encryption start procedure, for which a key was found and LL_START_ENC_REQ was sent
+                        has_key_ = false;
                         fill< layout_t >( write, { LinkLayer::ll_control_pdu_code, 1, LinkLayer::LL_START_ENC_RSP } );
                         that().start_transmit_encrypted();
                         encryption_changed = that().connection_data_.is_encrypted( true );
@@ -172,11 +174,13 @@ namespace link_layer {
                         fill< layout_t >( write, { LinkLayer::ll_control_pdu_code, 1, LinkLayer::LL_PAUSE_ENC_RSP } );
                         that().stop_receive_encrypted();
                         encryption_changed = that().connection_data_.is_encrypted( false );
+                        has_key_ = false;
                     }
                     else if ( opcode == LinkLayer::LL_PAUSE_ENC_RSP && size == 1 )
                     {
                         that().stop_transmit_encrypted();
                         encryption_changed = that().connection_data_.is_encrypted( false );
+                        has_key_ = false;
 
                         commit = false;
                     }
@@ -227,6 +231,9 @@ namespace link_layer {
                     that().connection_data_.is_encrypted( false );
                     that().stop_receive_encrypted();
                     that().stop_transmit_encrypted();
+
+                    has_key_ = false;
+                    encryption_in_progress_ = false;
                 }
 
             private:
